@@ -953,3 +953,36 @@ def drain_guarded(check: Check, repo: Repo, rule: str = "DRAIN-GUARDED") -> None
                 guarded = True
         check.ob(rule, it if isinstance(it, ast.For) else parent(it), f"collect_iterator_awaitables: iterates `{p}`", guarded,
                  "under suppress_exceptions / except Exception" if guarded else "a second failure of the source escapes from the clean-up")
+
+
+def prune_undelivered(check: Check, repo: Repo, rule: str = "PRUNE-UNDELIVERED") -> None:
+    from rules.language_rules import enclosing_conditions, norm_facts
+    from sa.cfg import CFG
+    from sa.guards import FactFlow
+
+    check.rule(
+        rule,
+        "WorkQueue._prune_empty_groups discards a delivery group and promotes its child groups to root (they are then "
+        "announced and started). A group node counts its unfinished tasks in `pending` and keeps the tasks whose values "
+        "have not been *delivered* yet in `tasks` - a task shared with another, still pending group has succeeded "
+        "(pending is 0) while its value is still held back. The discard-and-promote branch is therefore reached only under "
+        "a fact about the group's undelivered `tasks` (or its lack of children) in addition to `not pending`. Promoting the "
+        "children of a group whose data has not been delivered announces a nested fragment at a path that does not exist "
+        "yet in the assembled data, and delivers its data there",
+    )
+    ci = ClassIndex(repo).get("execution.incremental.work_queue", "WorkQueue")
+    fn = ci.methods().get("_prune_empty_groups")
+    if fn is None:
+        raise AnalysisError("WorkQueue._prune_empty_groups not found")
+    dels = [d for d in walk_body(fn) if isinstance(d, ast.Delete)]
+    promos = [c for c in walk_body(fn) if isinstance(c, ast.Call) and any("child_groups" in unparse(a) for a in c.args)]
+    if not dels or not promos:
+        raise AnalysisError("_prune_empty_groups: discard / promotion of child groups not found")
+    flow = FactFlow(CFG(fn))
+    for d in dels:
+        facts = norm_facts(flow.facts_at(d)) | enclosing_conditions(d)
+        about = sorted(t for t, _p in facts if ".pending" in t or ".tasks" in t or ".child_groups" in t)
+        ok = any(".tasks" in t or ".child_groups" in t for t in about)
+        check.ob(rule, d, "WorkQueue._prune_empty_groups: a group is discarded and its children promoted", ok,
+                 f"under facts about {about}" if ok else
+                 f"decided by {about or 'nothing'} alone: a group whose tasks succeeded but whose values are still held back by another pending group is treated as empty")
